@@ -2,6 +2,7 @@ mod canon;
 mod cli;
 mod consts;
 mod ctx;
+mod fam_canary;
 mod fam_cipher;
 mod fam_codec;
 mod fam_edit;
@@ -47,6 +48,7 @@ fn main() {
     }
     let mut ctx = Ctx::new(&family, seed, thorough, &driver);
     match family.as_str() {
+        "canary" => fam_canary::canary(&mut ctx),
         "chunk" => fam_frame::chunk(&mut ctx),
         "parse" => fam_frame::parse(&mut ctx),
         "truncate" => fam_frame::truncate(&mut ctx),
